@@ -361,13 +361,32 @@ def delimiters(rep, prog, g):
             rep.ok(rule)
         else:
             rep.fail(rule, "range::simple|%s|order" % rule, "hyphen must be tried before partial and garbage last: %s" % names)
-    # separators
-    rg = gram.strip(g.get("range::range"))
-    if rg is not None and rg.kind == "separated" and gram.strip(rg.args[1]).kind == "prim" and gram.strip(rg.args[1]).extra == "space1" \
-            and gram.strip(rg.args[0]).kind == "ref" and gram.strip(rg.args[0]).extra == "range::simple":
-        rep.ok(rule)
+    # separators: comparators are separated by a parser that consumes blanks only, at least one, and accepts every
+    # blank (decided on the separator's PEG automaton, not on its spelling)
+    rg = gram.strip(g.get("range::range")) if g.get("range::range") else None
+    if rg is not None and rg.kind == "separated" and gram.strip(rg.args[0]).kind == "ref" and gram.strip(rg.args[0]).extra == "range::simple":
+        try:
+            from .. import peg
+            from ..peg import diff, inter
+            from .c05 import build
+            L, Pg, classes, reps, _, _ = build(prog, g, root="range::range_set", extra_chars="vV.-+xX*<>=~^|")
+            Ms, Fs = Pg.den(rg.args[1])
+            sp = L.sym(classes["space"])
+            only_blanks = L.seq(L.plus(sp), L.mark(), L.sigma_star())
+            w1 = diff(Ms, only_blanks).witness()
+            w2 = inter(Fs, L.concat(sp, L.sigma_star())).witness()
+            if w1 is None and w2 is None:
+                rep.ok(rule)
+            else:
+                w = w1 if w1 is not None else w2
+                rep.fail(rule, "range::range|%s|separator" % rule,
+                         "the separator between comparators %s (%r)" % (
+                             "consumes something other than one or more blanks" if w1 is not None else "rejects a blank",
+                             L.word_str(w, reps)))
+        except Inconclusive as e:
+            rep.inconc("%s: separator of range(): %s" % (rule, e.reason), e.where)
     else:
-        rep.fail(rule, "range::range|%s|separator" % rule, "comparators are not `separated(.., simple, space1)`: %s" % gram.show_p(g.get("range::range")))
+        rep.fail(rule, "range::range|%s|separator" % rule, "comparators are not `separated(.., simple, <blanks>)`: %s" % gram.show_p(g.get("range::range")))
     lo = gram.strip(g.get("range::logical_or"))
     if lo is not None and lo.kind == "delimited" and [gram.strip(x).kind for x in lo.args] == ["prim", "lit", "prim"] \
             and gram.strip(lo.args[1]).extra == "||" and gram.strip(lo.args[0]).extra == "space0" and gram.strip(lo.args[2]).extra == "space0":
